@@ -2,4 +2,6 @@ open Model
 let () = Driver.main [
   { Driver.name = "rx"; run = rx_run; judge = rx_judge };
   { Driver.name = "rx_tolerant"; run = rx_run; judge = rx_judge_tolerant };
+  { Driver.name = "st"; run = st_run; judge = st_judge };
+  { Driver.name = "st_tolerant"; run = st_run; judge = st_judge_tolerant };
 ]
